@@ -50,6 +50,8 @@ type Schedule struct {
 
 type gidKey struct{}
 
+// q1 goes through QueryContext, q2 through ExecContext (direct and in a transaction: all four
+// eviction sites of prepare_stmt.go)
 var texts = map[string]string{"q1": "SELECT v FROM ps WHERE id = ?", "q2": "SELECT id FROM ps WHERE v = ?"}
 
 // gate is the scheduler: goroutines park at instrumentation points until released.
@@ -145,6 +147,8 @@ type world struct {
 	plans []Plan
 	mu    sync.Mutex
 	inPrep map[int]bool // goroutine is inside the cache's own PrepareContext call
+	gate   *gate        // replay only: the driver call of a use parks at "drv:use"
+	inUse  map[int]bool // goroutine's driver call was already gated (database/sql retries ErrBadConn)
 }
 
 // countPool is the ConnPool the cache sits on: it counts the cache's pool-level PrepareContext calls.
@@ -152,6 +156,7 @@ type countPool struct {
 	*sql.DB
 	mu sync.Mutex
 	ok map[string]int
+	all []*sql.Stmt // every statement the cache prepared on the pool
 }
 
 func (p *countPool) PrepareContext(ctx context.Context, q string) (*sql.Stmt, error) {
@@ -159,6 +164,7 @@ func (p *countPool) PrepareContext(ctx context.Context, q string) (*sql.Stmt, er
 	if err == nil {
 		p.mu.Lock()
 		p.ok[q]++
+		p.all = append(p.all, st)
 		p.mu.Unlock()
 	}
 	return st, err
@@ -197,11 +203,25 @@ func stmtClosed(st *sql.Stmt) bool {
 	return reflect.ValueOf(st).Elem().FieldByName("closed").Bool()
 }
 
-func newWorld(plans []Plan) (*world, error) {
+// closePending: a Close call holds or waits for the statement's close lock (a sync.RWMutex shows a
+// writer, waiting or active, as a negative reader count), or has finished.
+func closePending(st *sql.Stmt) bool {
+	if stmtClosed(st) {
+		return true
+	}
+	return reflect.ValueOf(st).Elem().FieldByName("closemu").FieldByName("readerCount").FieldByName("v").Int() < 0
+}
+
+// replay: no idle connections are kept, so that closing a statement never has to wait for a
+// connection on which another (parked) call is in flight -- every call gets a connection of its own.
+func newWorld(plans []Plan, replay bool) (*world, error) {
 	rec := recdrv.New()
 	sqldb := rec.OpenDB()
-	sqldb.SetMaxOpenConns(8)
-	w := &world{rec: rec, sqldb: sqldb, plans: plans, inPrep: map[int]bool{}}
+	sqldb.SetMaxOpenConns(12)
+	if replay {
+		sqldb.SetMaxIdleConns(0)
+	}
+	w := &world{rec: rec, sqldb: sqldb, plans: plans, inPrep: map[int]bool{}, inUse: map[int]bool{}}
 	var err error
 	// one pinned connection keeps the shared in-memory database alive while bad connections are dropped
 	if w.keep, err = sqldb.Conn(context.Background()); err != nil {
@@ -233,8 +253,16 @@ func newWorld(plans []Plan) (*world, error) {
 			failed[e.Ctx] = true
 			return recdrv.ErrInjected
 		}
-		if e.K == "query" && e.Prepared && p.Use == "badconn" {
-			return driver.ErrBadConn
+		if (e.K == "query" || e.K == "exec") && e.Prepared {
+			if w.gate != nil && !w.inUse[gi] {
+				w.inUse[gi] = true
+				mu.Unlock()
+				w.gate.park(fmt.Sprintf("g%d", gi), "drv:use") // the call is in flight
+				mu.Lock()
+			}
+			if p.Use == "badconn" {
+				return driver.ErrBadConn
+			}
 		}
 		return nil
 	}
@@ -252,11 +280,16 @@ func (w *world) op(gi int) string {
 			return "other:begin " + err.Error()
 		}
 		tx := cp.(*gorm.PreparedStmtTX)
-		rows, err := tx.QueryContext(ctx, texts[p.Q], 1)
-		if rows != nil {
-			for rows.Next() {
+		if p.Q == "q2" {
+			_, err = tx.ExecContext(ctx, texts[p.Q], 1)
+		} else {
+			var rows *sql.Rows
+			rows, err = tx.QueryContext(ctx, texts[p.Q], 1)
+			if rows != nil {
+				for rows.Next() {
+				}
+				rows.Close()
 			}
-			rows.Close()
 		}
 		res := classify(err)
 		if err != nil {
@@ -265,6 +298,10 @@ func (w *world) op(gi int) string {
 			tx.Commit()
 		}
 		return res
+	}
+	if p.Q == "q2" {
+		_, err := w.pdb.ExecContext(ctx, texts[p.Q], 1)
+		return classify(err)
 	}
 	rows, err := w.pdb.QueryContext(ctx, texts[p.Q], 1)
 	if rows != nil {
@@ -291,26 +328,32 @@ var nextGate = map[string][]string{
 	"publish":    {"ps:use"},
 	"faildelete": {"done"},
 	"wait":       {"ps:use", "done"},
-	"use":        {"ps:badconn", "done"},
+	"use":        {"drv:use", "done"},
+	"useend":     {"ps:badconn", "done"},
 	"evict":      {"done"},
 }
 var fromGate = map[string]string{"lookup": "start", "lockcheck": "ps:miss", "driverprep": "ps:inserted", "publish": "ps:prepared",
-	"faildelete": "ps:prepfail", "wait": "ps:hit", "use": "ps:use", "evict": "ps:badconn"}
+	"faildelete": "ps:prepfail", "wait": "ps:hit", "use": "ps:use", "useend": "drv:use", "evict": "ps:badconn"}
 
 // Replay steps the real cache through a schedule.
 func Replay(s Schedule) (Obs, error) {
-	w, err := newWorld(s.Plan)
+	w, err := newWorld(s.Plan, true)
 	if err != nil {
 		return Obs{}, err
 	}
 	defer w.sqldb.Close()
 	g := newGate()
+	w.gate = g
 	var hmu sync.Mutex
 	entOf := map[int]int{}        // goroutine -> entry it holds
 	useStmt := map[int]*sql.Stmt{} // entry -> the *sql.Stmt its holders use
 	gorm.VerifHook = func(point string, args ...interface{}) {
 		if point == "ps:closer" {
-			g.park(fmt.Sprintf("c%d", g.entryID(args[0])), point)
+			id := g.entryID(args[0])
+			hmu.Lock()
+			useStmt[id] = args[0].(*gorm.Stmt).Stmt
+			hmu.Unlock()
+			g.park(fmt.Sprintf("c%d", id), point)
 			return
 		}
 		w.track(point, args...)
@@ -386,29 +429,36 @@ steps:
 		case st.A == "close":
 			w.pdb.Close()
 		case st.A == "closer":
-			// a closer spawned by Reset/Close parks at "ps:closer" once the entry's preparation is over
+			// a closer spawned by Reset/Close parks at "ps:closer" once the entry's preparation is over;
+			// released, it calls Close, which waits for the calls in flight
 			who := fmt.Sprintf("c%d", -st.G)
 			if waitParked(who, 2*time.Second) == "" {
 				drift("step %d: closer of entry %d did not arrive", idx+1, -st.G)
 				break steps
 			}
+			g.release(who)
+			fallthrough
+		case st.A == "estart":
+			// the eviction's "go stmt.Close()" has no instrumentation point: wait until it is under way
 			hmu.Lock()
 			sq := useStmt[-st.G]
 			hmu.Unlock()
-			g.release(who)
+			for k := 0; sq != nil && k < 2000 && !closePending(sq); k++ {
+				time.Sleep(time.Millisecond)
+			}
+			if sq != nil && !closePending(sq) {
+				drift("step %d: no Close call on the statement of entry %d", idx+1, -st.G)
+				break steps
+			}
+		case st.A == "closed":
+			hmu.Lock()
+			sq := useStmt[-st.G]
+			hmu.Unlock()
 			for k := 0; sq != nil && k < 2000 && !stmtClosed(sq); k++ {
 				time.Sleep(time.Millisecond)
 			}
-		case st.A == "eclose":
-			// the eviction's "go stmt.Close()" has no instrumentation point: wait until it has run
-			hmu.Lock()
-			sq := useStmt[-st.G]
-			hmu.Unlock()
-			for k := 0; k < 2000 && !stmtClosed(sq); k++ {
-				time.Sleep(time.Millisecond)
-			}
-			if !stmtClosed(sq) {
-				drift("step %d: statement of evicted entry %d was not closed", idx+1, -st.G)
+			if sq != nil && !stmtClosed(sq) {
+				drift("step %d: statement of entry %d was not closed", idx+1, -st.G)
 				break steps
 			}
 		default:
@@ -417,9 +467,21 @@ steps:
 				drift("step %d: %s expected at %s, is at %q", idx+1, who, fromGate[st.A], at)
 				break steps
 			}
+			// a direct call on a statement whose Close has begun fails with "statement is closed", but only
+			// after that Close has finished -- which may wait for a connection another parked call occupies
+			// (database/sql closes the driver statements under the connection locks): do not wait for it
+			lateClosed := false
+			if st.A == "use" && !s.Plan[st.G-1].Tx {
+				hmu.Lock()
+				lateClosed = stmtClosed(useStmt[entOf[st.G]])
+				hmu.Unlock()
+			}
 			g.release(who)
 			// wait until the goroutine parks again or finishes
 			deadline := time.Now().Add(2 * time.Second)
+			if lateClosed {
+				deadline = time.Now().Add(20 * time.Millisecond)
+			}
 			arrived := ""
 			for time.Now().Before(deadline) {
 				if isDone(st.G) {
@@ -437,6 +499,9 @@ steps:
 				if x == arrived {
 					ok = true
 				}
+			}
+			if !ok && lateClosed && arrived == "" {
+				ok = true
 			}
 			if !ok {
 				drift("step %d: after %s(%s) arrived at %q", idx+1, st.A, who, arrived)
@@ -460,10 +525,21 @@ steps:
 	}
 	// leak check: after Close every statement the cache prepared must get closed
 	w.pdb.Close()
-	for k := 0; k < 1000 && w.rec.OpenStmts() > 0; k++ {
+	unclosed := func() int {
+		w.pool.mu.Lock()
+		defer w.pool.mu.Unlock()
+		n := 0
+		for _, st := range w.pool.all {
+			if !stmtClosed(st) {
+				n++
+			}
+		}
+		return n
+	}
+	for k := 0; k < 1000 && unclosed() > 0; k++ {
 		time.Sleep(time.Millisecond)
 	}
-	o.Leaked = w.rec.OpenStmts()
+	o.Leaked = unclosed()
 	w.keep.Close()
 	return o, nil
 }
@@ -548,7 +624,7 @@ func stormCmd(args []string) error {
 		if fx != nil {
 			plans, admin, ng = fx.Plan, fx.Admin, len(fx.Plan)
 		}
-		w, err := newWorld(plans)
+		w, err := newWorld(plans, false)
 		if err != nil {
 			return err
 		}
